@@ -57,3 +57,327 @@ class RegionUnion:
 
     def claim(a, b, cx, cy):
         return iff(selects(a | b, cx, cy), selects(a, cx, cy) or selects(b, cx, cy))
+
+
+# ---- RegionCoreTree.add_core: the LOCAL step at one node of the tree (one contract per level: scale, shift and level are the
+# ---- constants RegionCoreTree.__init__ gives a node of that level), the recursive call on the child used by its contract ------------
+from pyvc.values import TRec, TSeq, TConst, TBool, ListV, NONE, ObjV as _ObjV   # noqa: E402
+from pyvc.speclib import select, seq_len, forall_range, ite   # noqa: E402
+
+HALF = TBV(40, 0, 0xffff)
+CORE = TBV(40, -1, 18)
+
+
+def _sub_get(E, obj, args, kwargs, st, node):
+    """self.subregions[i]: the child for that sub-block, or None (ghost g_child_exists); a child made in this call is returned"""
+    for t in reversed(st.trace.items):
+        if t[0] == "child_stored":
+            return [(st, t[2], None)]
+    import z3
+    has = st.assume(st.env["g_child_exists"])
+    no = st.assume(z3.Not(st.env["g_child_exists"]))
+    out = []
+    if E.feasible(has):
+        out.append((has, _ObjV("RegionCoreTree", {"ident": 1}), None))
+    if E.feasible(no):
+        out.append((no, NONE, None))
+    return out
+
+
+def _sub_set(E, obj, args, kwargs, st, node):
+    s = st.copy()
+    s.trace = ListV(s.trace.items + (("child_stored", args[0], args[1]),))
+    return [(s, NONE, None)]
+
+
+def _new_node(E, args, kwargs, st, node):
+    a = list(args) + [None] * (3 - len(args))
+    s = st.copy()
+    s.trace = ListV(s.trace.items + (("child_made", kwargs.get("base_x", a[0]), kwargs.get("base_y", a[1]), kwargs.get("level", a[2])),))
+    return [(s, _ObjV("RegionCoreTree", {"ident": 2}))]
+
+
+def _child_add(E, obj, args, kwargs, st, node):
+    """the recursive call on the child (this very contract, one level down): recorded; it says whether the child's whole
+    block is now selected for the core (ghost g_child_full)"""
+    s = st.copy()
+    s.trace = ListV(s.trace.items + (("child_add_core",) + tuple(args),))
+    return [(s, st.env["g_child_full"], None)]
+
+
+def _node(level):
+    return TRec("RegionCoreTree", base_x=COORD, base_y=COORD, scale=TConst(4 ** (4 - level)), shift=TConst(6 - 2 * level), level=TConst(level),
+                locally_selected=TSeq(HALF), subregions=TRec("Subregions"))
+
+
+def _sub_of(self, x, y, level):
+    """index of the sub-block of this node's block that holds chip (x, y): sub-blocks are scale/4 chips square, numbered
+    x-index + 4 * y-index (written with the block's own size, not with the shifts the code uses)"""
+    q = 4 ** (3 - level)
+    return ite(x - self.base_x >= 3 * q, 3, ite(x - self.base_x >= 2 * q, 2, ite(x - self.base_x >= q, 1, 0))) + \
+        4 * ite(y - self.base_y >= 3 * q, 3, ite(y - self.base_y >= 2 * q, 2, ite(y - self.base_y >= q, 1, 0)))
+
+
+def _native_add_core(self, x, y, p, g_child_exists, g_child_full, level):
+    """the REAL RegionCoreTree.add_core on a real node of that level with the given selections; its children are stand-ins that
+    record the recursive call and answer with the ghost (the child one level down is this same method: its own contract)"""
+    import array
+    import types
+    import rig.machine_control.regions as R
+    from pyvc.replay import OutsideHarness
+    sel = [int(v) for v in self.locally_selected]
+    if len(sel) != 18 or not all(0 <= v <= 0xffff for v in sel):
+        raise OutsideHarness()
+    trace = []
+
+    class Child(object):
+        def __init__(s, base_x=0, base_y=0, level=0):
+            s.made = (base_x, base_y, level)
+            trace.append(("child_made", base_x, base_y, level))
+
+        def add_core(s, x_, y_, p_):
+            trace.append(("child_add_core", x_, y_, p_))
+            return bool(g_child_full)
+
+    class Subs(list):
+        def __setitem__(s, i, v):
+            trace.append(("child_stored", i, v))
+            list.__setitem__(s, i, v)
+    node = R.RegionCoreTree(int(self.base_x), int(self.base_y), level)
+    node.locally_selected = array.array('H', sel)
+    if level < 3:
+        existing = Child.__new__(Child)
+        node.subregions = Subs([existing if g_child_exists else None] * 16)
+    real_cls, R.RegionCoreTree = R.RegionCoreTree, Child
+    try:
+        try:
+            res, raised = real_cls.add_core(node, int(x), int(y), int(p)), None
+        except Exception as e:      # noqa
+            res, raised = None, type(e).__name__
+    finally:
+        R.RegionCoreTree = real_cls
+    post = types.SimpleNamespace(base_x=node.base_x, base_y=node.base_y, scale=node.scale, shift=node.shift, level=node.level,
+                                 locally_selected=list(node.locally_selected))
+    return {"__native__": True, "result": res, "raised": raised, "self_post": post, "_trace": trace}
+
+
+class _AddCoreBase:
+    properties = ("C12",)
+    bv = 40
+    externals = {"Subregions.__getitem__": _sub_get, "Subregions.__setitem__": _sub_set, "class:RegionCoreTree": _new_node,
+                 "RegionCoreTree.add_core": _child_add}
+    raises = {"ValueError": None}
+    assumptions = ["the list of children is opaque (a child exists or not: ghost; storing one is recorded); the recursive call on the child is recorded "
+                   "and answers with a ghost; blocks are aligned to their size (base_x, base_y multiples of scale), as RegionCoreTree creates them"]
+
+
+@contract("rig/machine_control/regions.py::RegionCoreTree.add_core", variant="level0")
+class AddCoreLevel0(_AddCoreBase):
+    """add_core at a node of level 0 (a block of 256x256 chips): refused exactly outside the block / the cores 0..17; the core's bit
+    of the sub-block holding the chip is set at once in a leaf, and above a leaf exactly when the child - made on demand for
+    exactly that sub-block, one level down - reports its whole block selected; a sub-block already selected whole is left
+    alone; a node (other than the root) whose 16 sub-blocks are all selected for the core hands the selection up: clears it and
+    answers True; no other core's selection is touched"""
+    properties = ("C12",)
+    bv = 40
+    externals = _AddCoreBase.externals
+    raises = {"ValueError": None}
+    assumptions = _AddCoreBase.assumptions
+    params = dict(self=_node(0), x=TBV(40, -1, 256), y=TBV(40, -1, 256), p=CORE, g_child_exists=TBool(), g_child_full=TBool())
+    options = {"no_merge": True}
+
+    def native(self, x, y, p, g_child_exists, g_child_full):
+        return _native_add_core(self, x, y, p, g_child_exists, g_child_full, 0)
+
+    def requires(self):
+        return (seq_len(self.locally_selected) == 18 and (self.base_x & (self.scale - 1)) == 0 and (self.base_y & (self.scale - 1)) == 0
+                and self.base_x + self.scale <= 256 and self.base_y + self.scale <= 256)
+
+    def raises_ValueError(self, x, y, p, _trace):
+        return (not (0 <= p <= 17 and self.base_x <= x < self.base_x + self.scale and self.base_y <= y < self.base_y + self.scale)
+                and len(_trace) == 0)
+
+    def ensures_only_inside_the_block(self, x, y, p):
+        return 0 <= p <= 17 and self.base_x <= x < self.base_x + self.scale and self.base_y <= y < self.base_y + self.scale
+
+    def ensures_other_cores_untouched(self, self_post, p):
+        return (seq_len(self_post.locally_selected) == 18
+                and forall_range(0, 18, lambda c: implies(c != p, select(self_post.locally_selected, c) == select(self.locally_selected, c))))
+
+    def ensures_the_right_sub_block_and_child(self, x, y, p, g_child_exists, _trace):
+        sub = _sub_of(self, x, y, 0)
+        already = (select(self.locally_selected, p) & (1 << sub)) != 0
+        descend = 0 != 3 and not already
+        n = len(_trace)
+        return (implies(not descend, n == 0)
+                and implies(descend and g_child_exists, n == 1 and _trace[0] == ("child_add_core", x, y, p))
+                and implies(descend and not g_child_exists,
+                            n == 3 and _trace[0] == ("child_made", self.base_x + 64 * (sub % 4), self.base_y + 64 * (sub // 4), 0 + 1)
+                            and _trace[1][0] == "child_stored" and _trace[1][1] == sub and _trace[2] == ("child_add_core", x, y, p)))
+
+    def ensures_selection_of_this_core(self, self_post, x, y, p, g_child_full, result):
+        sub = _sub_of(self, x, y, 0)
+        before = select(self.locally_selected, p)
+        already = (before & (1 << sub)) != 0
+        now = ite(0 == 3 or (not already and g_child_full), before | (1 << sub), before)
+        hand_up = now == 0xffff and 0 != 0
+        return result == hand_up and select(self_post.locally_selected, p) == ite(hand_up, 0, now)
+
+
+@contract("rig/machine_control/regions.py::RegionCoreTree.add_core", variant="level1")
+class AddCoreLevel1(_AddCoreBase):
+    """add_core at a node of level 1 (a block of 64x64 chips): refused exactly outside the block / the cores 0..17; the core's bit
+    of the sub-block holding the chip is set at once in a leaf, and above a leaf exactly when the child - made on demand for
+    exactly that sub-block, one level down - reports its whole block selected; a sub-block already selected whole is left
+    alone; a node (other than the root) whose 16 sub-blocks are all selected for the core hands the selection up: clears it and
+    answers True; no other core's selection is touched"""
+    properties = ("C12",)
+    bv = 40
+    externals = _AddCoreBase.externals
+    raises = {"ValueError": None}
+    assumptions = _AddCoreBase.assumptions
+    params = dict(self=_node(1), x=TBV(40, -1, 256), y=TBV(40, -1, 256), p=CORE, g_child_exists=TBool(), g_child_full=TBool())
+    options = {"no_merge": True}
+
+    def native(self, x, y, p, g_child_exists, g_child_full):
+        return _native_add_core(self, x, y, p, g_child_exists, g_child_full, 1)
+
+    def requires(self):
+        return (seq_len(self.locally_selected) == 18 and (self.base_x & (self.scale - 1)) == 0 and (self.base_y & (self.scale - 1)) == 0
+                and self.base_x + self.scale <= 256 and self.base_y + self.scale <= 256)
+
+    def raises_ValueError(self, x, y, p, _trace):
+        return (not (0 <= p <= 17 and self.base_x <= x < self.base_x + self.scale and self.base_y <= y < self.base_y + self.scale)
+                and len(_trace) == 0)
+
+    def ensures_only_inside_the_block(self, x, y, p):
+        return 0 <= p <= 17 and self.base_x <= x < self.base_x + self.scale and self.base_y <= y < self.base_y + self.scale
+
+    def ensures_other_cores_untouched(self, self_post, p):
+        return (seq_len(self_post.locally_selected) == 18
+                and forall_range(0, 18, lambda c: implies(c != p, select(self_post.locally_selected, c) == select(self.locally_selected, c))))
+
+    def ensures_the_right_sub_block_and_child(self, x, y, p, g_child_exists, _trace):
+        sub = _sub_of(self, x, y, 1)
+        already = (select(self.locally_selected, p) & (1 << sub)) != 0
+        descend = 1 != 3 and not already
+        n = len(_trace)
+        return (implies(not descend, n == 0)
+                and implies(descend and g_child_exists, n == 1 and _trace[0] == ("child_add_core", x, y, p))
+                and implies(descend and not g_child_exists,
+                            n == 3 and _trace[0] == ("child_made", self.base_x + 16 * (sub % 4), self.base_y + 16 * (sub // 4), 1 + 1)
+                            and _trace[1][0] == "child_stored" and _trace[1][1] == sub and _trace[2] == ("child_add_core", x, y, p)))
+
+    def ensures_selection_of_this_core(self, self_post, x, y, p, g_child_full, result):
+        sub = _sub_of(self, x, y, 1)
+        before = select(self.locally_selected, p)
+        already = (before & (1 << sub)) != 0
+        now = ite(1 == 3 or (not already and g_child_full), before | (1 << sub), before)
+        hand_up = now == 0xffff and 1 != 0
+        return result == hand_up and select(self_post.locally_selected, p) == ite(hand_up, 0, now)
+
+
+@contract("rig/machine_control/regions.py::RegionCoreTree.add_core", variant="level2")
+class AddCoreLevel2(_AddCoreBase):
+    """add_core at a node of level 2 (a block of 16x16 chips): refused exactly outside the block / the cores 0..17; the core's bit
+    of the sub-block holding the chip is set at once in a leaf, and above a leaf exactly when the child - made on demand for
+    exactly that sub-block, one level down - reports its whole block selected; a sub-block already selected whole is left
+    alone; a node (other than the root) whose 16 sub-blocks are all selected for the core hands the selection up: clears it and
+    answers True; no other core's selection is touched"""
+    properties = ("C12",)
+    bv = 40
+    externals = _AddCoreBase.externals
+    raises = {"ValueError": None}
+    assumptions = _AddCoreBase.assumptions
+    params = dict(self=_node(2), x=TBV(40, -1, 256), y=TBV(40, -1, 256), p=CORE, g_child_exists=TBool(), g_child_full=TBool())
+    options = {"no_merge": True}
+
+    def native(self, x, y, p, g_child_exists, g_child_full):
+        return _native_add_core(self, x, y, p, g_child_exists, g_child_full, 2)
+
+    def requires(self):
+        return (seq_len(self.locally_selected) == 18 and (self.base_x & (self.scale - 1)) == 0 and (self.base_y & (self.scale - 1)) == 0
+                and self.base_x + self.scale <= 256 and self.base_y + self.scale <= 256)
+
+    def raises_ValueError(self, x, y, p, _trace):
+        return (not (0 <= p <= 17 and self.base_x <= x < self.base_x + self.scale and self.base_y <= y < self.base_y + self.scale)
+                and len(_trace) == 0)
+
+    def ensures_only_inside_the_block(self, x, y, p):
+        return 0 <= p <= 17 and self.base_x <= x < self.base_x + self.scale and self.base_y <= y < self.base_y + self.scale
+
+    def ensures_other_cores_untouched(self, self_post, p):
+        return (seq_len(self_post.locally_selected) == 18
+                and forall_range(0, 18, lambda c: implies(c != p, select(self_post.locally_selected, c) == select(self.locally_selected, c))))
+
+    def ensures_the_right_sub_block_and_child(self, x, y, p, g_child_exists, _trace):
+        sub = _sub_of(self, x, y, 2)
+        already = (select(self.locally_selected, p) & (1 << sub)) != 0
+        descend = 2 != 3 and not already
+        n = len(_trace)
+        return (implies(not descend, n == 0)
+                and implies(descend and g_child_exists, n == 1 and _trace[0] == ("child_add_core", x, y, p))
+                and implies(descend and not g_child_exists,
+                            n == 3 and _trace[0] == ("child_made", self.base_x + 4 * (sub % 4), self.base_y + 4 * (sub // 4), 2 + 1)
+                            and _trace[1][0] == "child_stored" and _trace[1][1] == sub and _trace[2] == ("child_add_core", x, y, p)))
+
+    def ensures_selection_of_this_core(self, self_post, x, y, p, g_child_full, result):
+        sub = _sub_of(self, x, y, 2)
+        before = select(self.locally_selected, p)
+        already = (before & (1 << sub)) != 0
+        now = ite(2 == 3 or (not already and g_child_full), before | (1 << sub), before)
+        hand_up = now == 0xffff and 2 != 0
+        return result == hand_up and select(self_post.locally_selected, p) == ite(hand_up, 0, now)
+
+
+@contract("rig/machine_control/regions.py::RegionCoreTree.add_core", variant="level3")
+class AddCoreLevel3(_AddCoreBase):
+    """add_core at a node of level 3 (a block of 4x4 chips): refused exactly outside the block / the cores 0..17; the core's bit
+    of the sub-block holding the chip is set at once in a leaf, and above a leaf exactly when the child - made on demand for
+    exactly that sub-block, one level down - reports its whole block selected; a sub-block already selected whole is left
+    alone; a node (other than the root) whose 16 sub-blocks are all selected for the core hands the selection up: clears it and
+    answers True; no other core's selection is touched"""
+    properties = ("C12",)
+    bv = 40
+    externals = _AddCoreBase.externals
+    raises = {"ValueError": None}
+    assumptions = _AddCoreBase.assumptions
+    params = dict(self=_node(3), x=TBV(40, -1, 256), y=TBV(40, -1, 256), p=CORE, g_child_exists=TBool(), g_child_full=TBool())
+    options = {"no_merge": True}
+
+    def native(self, x, y, p, g_child_exists, g_child_full):
+        return _native_add_core(self, x, y, p, g_child_exists, g_child_full, 3)
+
+    def requires(self):
+        return (seq_len(self.locally_selected) == 18 and (self.base_x & (self.scale - 1)) == 0 and (self.base_y & (self.scale - 1)) == 0
+                and self.base_x + self.scale <= 256 and self.base_y + self.scale <= 256)
+
+    def raises_ValueError(self, x, y, p, _trace):
+        return (not (0 <= p <= 17 and self.base_x <= x < self.base_x + self.scale and self.base_y <= y < self.base_y + self.scale)
+                and len(_trace) == 0)
+
+    def ensures_only_inside_the_block(self, x, y, p):
+        return 0 <= p <= 17 and self.base_x <= x < self.base_x + self.scale and self.base_y <= y < self.base_y + self.scale
+
+    def ensures_other_cores_untouched(self, self_post, p):
+        return (seq_len(self_post.locally_selected) == 18
+                and forall_range(0, 18, lambda c: implies(c != p, select(self_post.locally_selected, c) == select(self.locally_selected, c))))
+
+    def ensures_the_right_sub_block_and_child(self, x, y, p, g_child_exists, _trace):
+        sub = _sub_of(self, x, y, 3)
+        already = (select(self.locally_selected, p) & (1 << sub)) != 0
+        descend = 3 != 3 and not already
+        n = len(_trace)
+        return (implies(not descend, n == 0)
+                and implies(descend and g_child_exists, n == 1 and _trace[0] == ("child_add_core", x, y, p))
+                and implies(descend and not g_child_exists,
+                            n == 3 and _trace[0] == ("child_made", self.base_x + 1 * (sub % 4), self.base_y + 1 * (sub // 4), 3 + 1)
+                            and _trace[1][0] == "child_stored" and _trace[1][1] == sub and _trace[2] == ("child_add_core", x, y, p)))
+
+    def ensures_selection_of_this_core(self, self_post, x, y, p, g_child_full, result):
+        sub = _sub_of(self, x, y, 3)
+        before = select(self.locally_selected, p)
+        already = (before & (1 << sub)) != 0
+        now = ite(3 == 3 or (not already and g_child_full), before | (1 << sub), before)
+        hand_up = now == 0xffff and 3 != 0
+        return result == hand_up and select(self_post.locally_selected, p) == ite(hand_up, 0, now)
